@@ -33,7 +33,7 @@ CLASS_LAW = {
 }
 FLOORS = {"float-arithmetic": 2, "density-form": 3, "gradient-is-derivative": 3, "sampler-density-agreement": 3,
           "bounds-are-support": 3, "support-guard": 2, "routing": 7, "posterior-sum": 4,
-          "guess-order": 1, "combine-coverage": 1, "received-arrays": 4, "components-not-updated": 6}
+          "guess-order": 1, "combine-coverage": 2, "received-arrays": 4, "components-not-updated": 6}
 
 T = "theta[self.variables]"
 
@@ -212,6 +212,7 @@ def run(prog, tier):
     init = jp.methods["__init__"]
     obs.append(_joint_bounds(jp, init, prog))
     obs.append(_combine_coverage(prog, jp, init))
+    obs.append(_merge_paths(prog, jp, init))
 
     # ---------------- Posterior
     pc = prog.cls("Posterior")
@@ -440,6 +441,78 @@ def _combine_coverage(prog, jp, init):
     return struct_ob("combine-coverage", f"{jp.module.name}.JointPrior.__init__", ok,
                      f"prior classes {sorted(have - listed)} are not in the merge list and would be dropped from the joint prior",
                      REL, init.lineno, slots={"listed": sorted(listed), "classes_with_combine": sorted(have)})
+
+
+def _merge_paths(prog, jp, init):
+    """In the merge loop every non-empty group of same-class components ends up in self.components exactly once: a single
+    component as it is (or combined), several combined into one.  Decided by evaluating the group-size tests for sizes 1, 2, 3
+    (the tests compare len(group) with integer literals, so three sizes cover every size >= 1)."""
+    loops = [st for st in ast.walk(init) if isinstance(st, ast.For) and isinstance(st.iter, (ast.List, ast.Tuple))
+             and any(U(e) in prog.classes for e in st.iter.elts)]
+    if len(loops) != 1:
+        raise AnalysisError(f"anchor vanished: merge loop of JointPrior.__init__ ({len(loops)} found)")
+    lp = loops[0]
+    cls_var = U(lp.target)
+    grp = None
+    for st in lp.body:
+        if isinstance(st, ast.Assign) and isinstance(st.targets[0], ast.Name) and isinstance(st.value, ast.ListComp) \
+                and any(isinstance(n, ast.Call) and U(n.func) == "isinstance" for n in ast.walk(st.value)):
+            grp = st.targets[0].id
+    if grp is None:
+        raise AnalysisError("anchor vanished: per-class group in the merge loop of JointPrior.__init__")
+
+    # the list the groups are collected in: self.components itself, or a local that is stored as self.components afterwards
+    sinks = {"self.components"}
+    for st in ast.walk(init):
+        if isinstance(st, ast.Assign) and U(st.targets[0]) == "self.components" and isinstance(st.value, ast.Name):
+            sinks.add(st.value.id)
+
+    def ev(t, n):
+        if isinstance(t, ast.UnaryOp) and isinstance(t.op, ast.Not):
+            return not ev(t.operand, n)
+        if isinstance(t, ast.BoolOp):
+            vs = [ev(v, n) for v in t.values]
+            return all(vs) if isinstance(t.op, ast.And) else any(vs)
+        if isinstance(t, ast.Name) and t.id == grp:
+            return n > 0
+        if isinstance(t, ast.Compare) and len(t.ops) == 1:
+            def val(e):
+                if isinstance(e, ast.Constant) and isinstance(e.value, int):
+                    return e.value
+                if isinstance(e, ast.Call) and U(e.func) == "len" and U(e.args[0]) == grp:
+                    return n
+                raise AnalysisError(f"merge-paths: test operand `{U(e)}` is not len({grp}) or an integer literal")
+            a, b = val(t.left), val(t.comparators[0])
+            return {ast.Eq: a == b, ast.NotEq: a != b, ast.Lt: a < b, ast.LtE: a <= b, ast.Gt: a > b, ast.GtE: a >= b}[type(t.ops[0])]
+        raise AnalysisError(f"merge-paths: test `{U(t)}` is not a comparison of len({grp}) with integer literals")
+
+    def actions(stmts, n):
+        out = []
+        for st in stmts:
+            if isinstance(st, ast.If):
+                out += actions(st.body if ev(st.test, n) else st.orelse, n)
+            elif isinstance(st, ast.Expr) and isinstance(st.value, ast.Call) and isinstance(st.value.func, ast.Attribute) \
+                    and U(st.value.func.value) in sinks and st.value.args:
+                a0 = st.value.args[0]
+                txt = U(a0)
+                if st.value.func.attr == "extend" and txt == grp:
+                    out.append("keep-all")
+                elif st.value.func.attr == "append" and txt in (f"{grp}[0]", f"{grp}[-1]"):
+                    out.append("keep-one")
+                elif st.value.func.attr == "append" and isinstance(a0, ast.Call) and U(a0.func) in (f"{cls_var}.combine",) and U(a0.args[0]) == grp:
+                    out.append("combine")
+                else:
+                    out.append("other:" + txt[:40])
+        return out
+    why = []
+    for n in (1, 2, 3):
+        acts = actions(lp.body, n)
+        good = acts in (["combine"],) or (n == 1 and acts in (["keep-all"], ["keep-one"]))
+        if not good:
+            why.append(f"a group of {n} component{'s' if n > 1 else ''} of one class leads to {acts or 'nothing'} (must be kept"
+                       f"{' / combined into one' if n > 1 else ''} exactly once)")
+    return struct_ob("combine-coverage", f"{jp.module.name}.JointPrior.__init__[group sizes]", not why, "; ".join(why), REL, lp.lineno,
+                     slots={"group": grp})
 
 
 def returns_own_state(fn):
